@@ -294,6 +294,7 @@ type subjKey struct {
 func keyOf(ev paths.Event, v ssa.Value) subjKey {
 	// an error that was converted from the concrete error field (`return p.opError` as error) keeps its identity
 	for {
+		v = ev.Resolve(v)
 		switch x := v.(type) {
 		case *ssa.ChangeInterface:
 			v = x.X
@@ -347,6 +348,7 @@ func nilStateOf(events []paths.Event, subj ssa.Value, w *paths.Walker) nilness {
 
 func keyOfW(w *paths.Walker, v ssa.Value) subjKey {
 	for {
+		v = w.Resolve(v)
 		switch x := v.(type) {
 		case *ssa.ChangeInterface:
 			v = x.X
